@@ -547,6 +547,11 @@ def gen_rows(r, world, nrows, sharpen=False):
             for p in world["parents"][v]:
                 col = col * card[p] + x[p]
             probs = [world["tables"][v][s][col] for s in range(card[v])]
+            if sharpen:
+                # strong dependencies: peaked conditionals (structure search then makes long climbs with moves that are undone later)
+                probs = [pr ** 4 for pr in probs]
+                tot = sum(probs) or 1.0
+                probs = [pr / tot for pr in probs]
             u = r.random()
             acc = 0.0
             k = card[v] - 1
